@@ -129,6 +129,39 @@ MUTATIONS = [
      "what": "an explicit cutoff=None is coerced with `cutoff or 0`-style arithmetic only when the argument is passed... modelled as: cutoff defaults to the number of nodes minus 2 when None (paths through every node are cut)",
      "old": "        for path in nx.all_simple_paths(graph.disorient(), left, right, cutoff=cutoff)",
      "new": "        for path in nx.all_simple_paths(graph.disorient(), left, right, cutoff=cutoff if cutoff is not None else max(len(graph) - 2, 1))"},
+    # ---------------------------------------------------------------- ID / IDC entry points (C01, C02, C03)
+    {"id": "mid_api_validate_then_normalise", "props": ["C01", "C02", "C03"], "file": API,
+     "what": "identify_outcomes checks that every treatment is a node before _ensure_set: a one-shot iterable of treatments is consumed, the query is answered without treatments",
+     "old": "    treatments = _ensure_set(treatments)\n    outcomes = _ensure_set(outcomes)\n",
+     "new": "    if not isinstance(treatments, Variable) and any(t not in graph for t in treatments):\n        raise KeyError(\"treatment not in graph\")\n    treatments = _ensure_set(treatments)\n    outcomes = _ensure_set(outcomes)\n"},
+    {"id": "mid_query_validate_then_normalise", "props": ["C01", "C02", "C03"], "file": UT,
+     "what": "Query.__init__ looks for counterfactual outcomes before _ensure_set: a one-shot iterable of outcomes is consumed",
+     "old": "        self.outcomes = _ensure_set(outcomes)\n        self.treatments = _ensure_set(treatments)",
+     "new": "        if not isinstance(outcomes, Variable) and any(isinstance(o, CounterfactualVariable) for o in outcomes):\n            raise ValueError(\"outcomes must be plain variables\")\n        self.outcomes = _ensure_set(outcomes)\n        self.treatments = _ensure_set(treatments)"},
+    {"id": "mid_query_positional_order", "props": ["C01", "C02", "C03"], "file": UT,
+     "what": "Query.__init__ lists treatments before outcomes: positional callers silently swap them",
+     "old": "        outcomes: Variable | set[Variable],\n        treatments: Variable | set[Variable],\n        conditions: None | Variable | set[Variable] = None,\n    ) -> None:",
+     "new": "        treatments: Variable | set[Variable],\n        outcomes: Variable | set[Variable],\n        conditions: None | Variable | set[Variable] = None,\n    ) -> None:"},
+    {"id": "mid_from_parts_drops_conditions", "props": ["C03"], "file": UT,
+     "what": "Identification.from_parts does not forward conditions to the Query",
+     "old": "            query=Query(outcomes=outcomes, treatments=treatments, conditions=conditions),\n            graph=graph,\n            estimand=estimand,",
+     "new": "            query=Query(outcomes=outcomes, treatments=treatments),\n            graph=graph,\n            estimand=estimand,"},
+    {"id": "mid_from_expression_keeps_subscripts", "props": ["C03"], "file": UT,
+     "what": "Query.from_expression keeps the intervention subscripts on the conditions (no get_base)",
+     "old": "        conditions = {parent.get_base() for parent in query.parents}",
+     "new": "        conditions = set(query.parents)"},
+    {"id": "mid_from_expression_first_child_only", "props": ["C01", "C02"], "file": UT,
+     "what": "Query.from_expression takes the outcomes without their interventions only for plain variables (counterfactual children keep their subscripts)",
+     "old": "        outcomes = {child.get_base() for child in query.children}  # clean counterfactuals",
+     "new": "        outcomes = set(query.children)"},
+    {"id": "mid_api_conditions_must_be_iterable", "props": ["C03"], "file": API,
+     "what": "identify_outcomes copies conditions with set(): a bare Variable (allowed by the signature) is rejected",
+     "old": "    query = Query(treatments=treatments, outcomes=outcomes, conditions=conditions)",
+     "new": "    query = Query(treatments=treatments, outcomes=outcomes, conditions=None if conditions is None else set(conditions))"},
+    {"id": "mid_query_conditions_truthiness", "props": ["C03"], "file": UT,
+     "what": "Query.__init__ tests `if conditions` on the argument and then builds the set from it a second time through a generator expression filter",
+     "old": "        self.conditions = _ensure_set(conditions or set())",
+     "new": "        self.conditions = _ensure_set(conditions) if (isinstance(conditions, Variable) or (conditions is not None and any(True for _ in conditions))) else set()"},
 ]
 
 
